@@ -297,7 +297,7 @@ def c12_5(ctx: Ctx):
     ctx.check("if not inst.desc.is_call:" in t and "return inst.name in _INDIRECT_CALL_INSTRS[isa]" in t, ic, ic.node, "is_indirect_call: calls only, by LLVM instruction name", "changed")
 
 
-@rule("C12.6", ["C12"], "labels start a block at the current position; every _split_block site passes the right fallthrough decision", 8)
+@rule("C12.6", ["C12", "C03"], "labels start a block at the current position; every _split_block site passes the right fallthrough decision", 8)
 def c12_6(ctx: Ctx):
     repo = ctx.repo
     fi = repo.func(ST + "emit_label")
